@@ -127,7 +127,17 @@ func Check_Schedule() {
 	}
 	nkeys = sx.Param("keys", nkeys)
 	k = sx.Param("k", k)
-	schedule(nkeys, k, nil)
+	schedule(nkeys, k, nil, false)
+}
+
+// Check_ScheduleDTLS: UDP with DTLS is still a datagram transport without
+// template feedback: the same lifetime rules, explored on one key.
+func Check_ScheduleDTLS() {
+	k := 5
+	if sx.Tier() > 0 {
+		k = 6
+	}
+	schedule(1, sx.Param("k", k), []int{0, 3}, true)
 }
 
 // Check_ScheduleAfterLifetime: the same exploration one level deeper for the
@@ -138,12 +148,12 @@ func Check_ScheduleAfterLifetime() {
 	if sx.Tier() > 0 {
 		k = 7
 	}
-	schedule(2, sx.Param("k", k), []int{0, 3})
+	schedule(2, sx.Param("k", k), []int{0, 3}, false)
 }
 
-func schedule(nkeys, k int, forced []int) {
+func schedule(nkeys, k int, forced []int, dtls bool) {
 	clk := &vclock{base: time.Now()}
-	cp, err := collector.VerifNewCollectingProcess(collector.CollectorInput{Protocol: "udp", Address: "x", TemplateTTL: ttlSeconds}, clk, 16)
+	cp, err := collector.VerifNewCollectingProcess(collector.CollectorInput{Protocol: "udp", Address: "x", TemplateTTL: ttlSeconds, IsEncrypted: dtls}, clk, 16)
 	sx.Assert(err == nil, "init")
 	g := make([]ghost, nkeys)
 
@@ -291,6 +301,7 @@ func schedule(nkeys, k int, forced []int) {
 }
 
 var Table = map[string]runner.Entry{
+	"Check_ScheduleDTLS":          {Setup: Setup, Fn: Check_ScheduleDTLS},
 	"Check_Schedule":              {Setup: Setup, Fn: Check_Schedule},
 	"Check_ScheduleAfterLifetime": {Setup: Setup, Fn: Check_ScheduleAfterLifetime},
 }
